@@ -424,11 +424,11 @@ func init() {
 			{Name: "unicode-escapes-brace", Quick: 33, Thorough: 257, Run: runC07UBrace},
 			{Name: "ascii-bytes", Quick: 1, Thorough: 1, Exhaustive: true, Run: runC07ASCII},
 			{Name: "misc-escapes", Quick: 1, Thorough: 1, Exhaustive: true, Run: runC07Misc},
-			{Name: "random-strings", Quick: 1600, Thorough: 16000, Run: runC07Random},
-			{Name: "backtick-strings", Quick: 500, Thorough: 5000, Run: runC07Backticks},
-			{Name: "numbers", Quick: 200, Thorough: 2000, Run: runC07Numbers},
-			{Name: "literal-positions", Quick: 300, Thorough: 3000, Run: runC07Contexts},
-			{Name: "adjacent-literals", Quick: 200, Thorough: 2000, Run: runC07Adjacent},
+			{Name: "random-strings", Quick: 5000, Thorough: 30000, Run: runC07Random},
+			{Name: "backtick-strings", Quick: 1500, Thorough: 10000, Run: runC07Backticks},
+			{Name: "numbers", Quick: 600, Thorough: 4000, Run: runC07Numbers},
+			{Name: "literal-positions", Quick: 1000, Thorough: 6000, Run: runC07Contexts},
+			{Name: "adjacent-literals", Quick: 800, Thorough: 5000, Run: runC07Adjacent},
 		},
 	})
 }
